@@ -194,6 +194,21 @@ def _solve(i):
     se = z3.simplify(e)
     if z3.is_false(se):
         return i, 'unsat', 0.0, None, True
+    t0 = time.time()
+    if ob.expr is not None and os.environ.get('PVF_NO_NORMALFORM') != '1':
+        # exact normal form first: multiply out reciprocals, reduce square roots and sin/cos pairs
+        # (s^2 + c^2 = 1); if the residual normalises to 0 the negated claim reads `0 != 0`,
+        # which z3 refutes at once. Anything else goes to nlsat unchanged.
+        from . import poly
+        try:
+            pz = poly.eliminate(ob.expr, ctx)
+            if pz.is_zero():
+                chk = z3.Solver()
+                chk.add(pz.to_z3() != 0)
+                if chk.check() == z3.unsat:
+                    return i, 'unsat', time.time() - t0, 'reciprocal elimination', False
+        except (NotImplementedError, poly.TooBig, RecursionError, KeyError):
+            pass
     s = z3.Solver()
     s.set('timeout', timeout_ms)
     s.set('max_memory', 4000)
@@ -206,15 +221,6 @@ def _solve(i):
         first = min(timeout_ms, 5000)
         s.set('timeout', first)
         r = s.check()
-        if r == z3.unknown and ob.expr is not None:
-            # rational identity beyond nlsat: multiply out the reciprocals / reduce square roots
-            # exactly; the negated claim then reads `0 != 0`
-            from . import poly
-            try:
-                if poly.eliminate(ob.expr, ctx).is_zero():
-                    return i, 'unsat', time.time() - t0, 'reciprocal elimination', False
-            except (NotImplementedError, poly.TooBig, RecursionError):
-                pass
         if r == z3.unknown and timeout_ms > first:
             s.set('timeout', timeout_ms - first)
             r = s.check()
@@ -333,7 +339,7 @@ class AReport:
             if r['result'] == 'unsat':
                 f[1] += 1
                 if r.get('model') == 'reciprocal elimination':
-                    run.cov['decided_by_reciprocal_elimination'] = run.cov.get('decided_by_reciprocal_elimination', 0) + 1
+                    run.cov['decided_by_normal_form'] = run.cov.get('decided_by_normal_form', 0) + 1
                 if len(run.samples) < 10 and not r['trivial']:
                     run.sample({'obligation': ob.name, 'family': ob.family, 'result': 'unsat', 'solver_s': round(r['secs'], 3)})
             elif r['result'] == 'sat':
@@ -495,7 +501,11 @@ class AReport:
             tr = self.refute(ob, r, ctx)
             if tr is None and ob.expr is None and r['result'] == 'sat' and (ob.meta or {}).get('check'):
                 # a structural obligation (no residual to evaluate) failed: replay at a seeded point
-                tr = (sample_point(set(self.box) - {'deg'}, self.box, self.rng, self.consts), float('nan'))
+                pt = sample_point(set(self.box) - {'deg'}, self.box, self.rng, self.consts)
+                for k_, v_ in (r.get('model') or {}).items():
+                    if '!' not in k_ and k_ != 'deg':
+                        pt[k_] = v_[0] / v_[1]          # the solver's own counterexample where it names inputs
+                tr = (pt, float('nan'))
             if tr is None:
                 if r['result'] == 'sat':
                     run.error('obligation "%s" is sat under the relaxation but no true-function counterexample was found - inconclusive' % ob.name)
